@@ -10,6 +10,7 @@ import (
 	"net/http/httptest"
 	"strconv"
 	"strings"
+	"sync"
 
 	tpb "github.com/fullstorydev/grpchan/grpchantesting"
 	"github.com/fullstorydev/grpchan/httpgrpc"
@@ -60,7 +61,7 @@ var ctChoices = []ctChoice{
 
 func checkC11(e *core.Env) {
 	curEnv = e
-	e.SetRule("generated HTTP requests: method {POST,GET,PUT,HEAD,OPTIONS,DELETE,PATCH,post,empty} x path {each registered method kind, unknown, near-miss, base-path variants} x 25 Content-Type strings (exact, parameters, case, cross-kind, unknown, empty, malformed) x header sets (valid metadata, invalid base64 in -bin headers, bad GRPC-Timeout) x bodies (valid proto / JSON, garbage, truncated or hostile frames) through httpgrpc.Server.ServeHTTP and HandleServices on a recorder; oracle: reference decision procedure for the set of admissible rejections, handler invocation counter, reply shape parser (unary body decodes, stream reply = frames* + exactly one trailer frame), JSON/protobuf equivalence; distinct = (method class, path class, content-type, header class, body class)")
+	e.SetRule("generated HTTP requests: method {POST,GET,PUT,HEAD,OPTIONS,DELETE,PATCH,post,empty} x path {each registered method kind, unknown, near-miss, base-path variants} x 25 Content-Type strings (exact, parameters, case, cross-kind, unknown, empty, malformed) x header sets (valid metadata, invalid base64 in -bin headers, bad GRPC-Timeout) x bodies (valid proto / JSON, garbage, truncated or hostile frames) through httpgrpc.Server.ServeHTTP and HandleServices on a recorder; oracle: reference decision procedure for the set of admissible rejections, handler invocation counter, reply shape parser (unary body decodes, stream reply = frames* + exactly one trailer frame), JSON/protobuf equivalence; a concurrent phase (8 workers x 60 requests with mixed supported and unsupported content types to one unary method, each request judged on its own); distinct = (method class, path class, content-type, header class, body class)")
 	e.Assume("malformed Content-Type strings may be accepted or rejected (either way without a panic); bad GRPC-Timeout values must only not crash")
 	svc := &Service{}
 	srv := httpgrpc.NewServer(httpgrpc.WithBasePath("/base/"))
@@ -428,6 +429,85 @@ func checkC11(e *core.Env) {
 		}
 		if (rep[0] == nil) != (rep[1] == nil) || (rep[0] != nil && !proto.Equal(rep[0], rep[1])) {
 			e.Violate("server/unary/json-equivalence/reply", "replies differ between the JSON and protobuf encodings", w)
+		}
+	})
+
+	// the same method asked concurrently with different content types: each request is judged on its own
+	e.Cases("concurrent-types", e.N(6, 100), func(i int, r *rand.Rand) {
+		type ctKind struct {
+			ct        string
+			supported bool
+			json      bool
+		}
+		kinds := []ctKind{{"application/x-protobuf", true, false}, {"application/json", true, true}, {"text/plain", false, false}, {"application/octet-stream", false, false}, {"application/x-protobuf; charset=utf-8", true, false}}
+		const workers, perWorker = 8, 60
+		var wg sync.WaitGroup
+		var mu sync.Mutex
+		bad := map[string]string{}
+		for wkr := 0; wkr < workers; wkr++ {
+			wr := rand.New(rand.NewSource(r.Int63()))
+			wg.Add(1)
+			go func(wkr int) {
+				defer wg.Done()
+				for k := 0; k < perWorker; k++ {
+					ck := kinds[wr.Intn(len(kinds))]
+					req := &tpb.Message{Payload: []byte(fmt.Sprintf("c11-conc-%d-%d-%d", i, wkr, k)), Count: int32(k)}
+					want := &tpb.Message{Payload: []byte(fmt.Sprintf("resp-%d-%d", wkr, k))}
+					sc := &Script{Kind: Unary, UnaryReq: req, Resp: want}
+					run := svc.NewRun(sc, "http-direct")
+					var body []byte
+					if ck.json {
+						body, _ = protojson.Marshal(req)
+					} else {
+						body, _ = proto.Marshal(req)
+					}
+					hr := httptest.NewRequest("POST", "/base"+Unary.Method(), bytes.NewReader(body))
+					hr.Header.Set("Content-Type", ck.ct)
+					hr.Header.Set("X-Verif-Run", run.ID)
+					rec := httptest.NewRecorder()
+					pan := guard(func() { srv.ServeHTTP(rec, hr) })
+					_, ran := run.HandlerReturn()
+					svc.Forget(run)
+					problem := ""
+					switch {
+					case pan != "":
+						problem = "panic: " + trunc(pan, 300)
+					case !ck.supported && (ran || rec.Code != 415):
+						problem = fmt.Sprintf("request with unsupported Content-Type %q: HTTP %d, handler ran=%v (want 415 and no handler)", ck.ct, rec.Code, ran)
+					case ck.supported && (!ran || rec.Code != 200):
+						problem = fmt.Sprintf("valid request with Content-Type %q: HTTP %d, handler ran=%v (want 200 and one handler run)", ck.ct, rec.Code, ran)
+					case ck.supported:
+						got := new(tpb.Message)
+						var derr error
+						if ck.json {
+							derr = protojson.Unmarshal(rec.Body.Bytes(), got)
+						} else {
+							derr = proto.Unmarshal(rec.Body.Bytes(), got)
+						}
+						hrcv := run.Rets("h", "recv")
+						if derr != nil || !proto.Equal(got, want) {
+							problem = fmt.Sprintf("valid request with Content-Type %q: the reply does not decode with the request's encoding to the handler's response (%v)", ck.ct, derr)
+						} else if len(hrcv) != 1 || hrcv[0].Msg == nil || !proto.Equal(hrcv[0].Msg, req) {
+							problem = fmt.Sprintf("valid request with Content-Type %q: the handler did not receive the request that was sent", ck.ct)
+						}
+					}
+					e.Eval("concurrent-types|"+ck.ct, true)
+					if problem != "" {
+						mu.Lock()
+						cls := "unsupported"
+						if ck.supported {
+							cls = "supported"
+						}
+						bad[cls] = problem
+						mu.Unlock()
+					}
+				}
+			}(wkr)
+		}
+		wg.Wait()
+		e.Count("concurrent_requests", workers*perWorker)
+		for cls, p := range bad {
+			e.Violate("server/unary/concurrent-types/"+cls, p+" [8 workers sending mixed content types to one method]", nil)
 		}
 	})
 }
